@@ -172,6 +172,12 @@ func setConfigOption(key string, value any, push bool) (err error) {
 		}
 	}
 
+	if err != nil {
+		// The option is unchanged: there is nothing to announce.
+		option.Unlock()
+		return err
+	}
+
 	// Add the "restart pending" annotation if the settings requires a restart.
 	if option.RequiresRestart {
 		option.setAnnotation(RestartPendingAnnotation, true)
@@ -179,10 +185,6 @@ func setConfigOption(key string, value any, push bool) (err error) {
 
 	handleOptionUpdate(option, push)
 	option.Unlock()
-
-	if err != nil {
-		return err
-	}
 
 	// finalize change, activate triggers
 	signalChanges()
@@ -214,6 +216,12 @@ func setDefaultConfigOption(key string, value interface{}, push bool) (err error
 		}
 	}
 
+	if err != nil {
+		// The option is unchanged: there is nothing to announce.
+		option.Unlock()
+		return err
+	}
+
 	// Add the "restart pending" annotation if the settings requires a restart.
 	if option.RequiresRestart {
 		option.setAnnotation(RestartPendingAnnotation, true)
@@ -221,10 +229,6 @@ func setDefaultConfigOption(key string, value interface{}, push bool) (err error
 
 	handleOptionUpdate(option, push)
 	option.Unlock()
-
-	if err != nil {
-		return err
-	}
 
 	// finalize change, activate triggers
 	signalChanges()
